@@ -123,6 +123,18 @@ class Check:
                 continue
             seen_known.add(f.key)
             lines.append('KNOWN-FINDING: property=%s %s [%s] %s' % (self.pid, f.where, f.rule, f.message))
+        # an undecided instance beyond those confirmed by hand on the pinned tree is not a pass
+        try:
+            ub = json.load(open(os.path.join(os.path.dirname(os.path.abspath(__file__)), 'undecided_baseline.json')))['undecided'].get(self.pid, {})
+        except (OSError, ValueError, KeyError):
+            ub = None
+            self.broken.append('undecided_baseline.json missing or unreadable')
+        if ub is not None and not only:
+            for name, r in sorted(self.rules.items()):
+                if r['undecided'] > ub.get(name, 0):
+                    und = [s_['instance'] for s_ in r['samples'] if s_['status'] == 'undecided']
+                    self.broken.append('rule %s left %d instance(s) undecided, %d on the pinned tree%s' %
+                                       (name, r['undecided'], ub.get(name, 0), (': ' + und[-1][:160]) if und else ''))
         status = 0
         if new:
             # a refuted instance stands on its own witness even if another rule lost its anchor
